@@ -25,12 +25,30 @@ func GenKey(t *rapid.T, bin bool) string {
 // GenMD draws 0..maxKeys keys with 1..4 values each, as a flat pair list in
 // a drawn order (pairs of one key keep their relative order by construction
 // of the model, which joins in list order).
-func GenMD(t *rapid.T, maxKeys int) []KV {
+func GenMD(t *rapid.T, maxKeys int) []KV { return GenMDPool(t, nil, maxKeys) }
+
+// GenMDPool is GenMD with a per-RPC key pool: keys are reused across the
+// metadata sets of one RPC (several SetHeader calls, request vs response), so
+// that the order in which sets are joined becomes observable.
+func GenMDPool(t *rapid.T, pool *[]string, maxKeys int) []KV {
 	nk := rapid.IntRange(0, maxKeys).Draw(t, "nkeys")
 	var out []KV
 	for i := 0; i < nk; i++ {
-		bin := rapid.Bool().Draw(t, "bin")
-		k := GenKey(t, bin)
+		var k string
+		var bin bool
+		if pool != nil && len(*pool) > 0 && rapid.Bool().Draw(t, "reusekey") {
+			k = rapid.SampledFrom(*pool).Draw(t, "poolkey")
+			bin = strings.HasSuffix(strings.ToLower(k), "-bin")
+			if rapid.Bool().Draw(t, "recasepool") {
+				k = swapCase(k)
+			}
+		} else {
+			bin = rapid.Bool().Draw(t, "bin")
+			k = GenKey(t, bin)
+			if pool != nil {
+				*pool = append(*pool, k)
+			}
+		}
 		nv := rapid.SampledFrom([]int{1, 1, 1, 2, 3, 4}).Draw(t, "nvals")
 		for j := 0; j < nv; j++ {
 			var v []byte
@@ -268,6 +286,8 @@ func GenStreamConv(t *rapid.T, kind int, o GenOpts) Conv {
 		}
 	}
 	if o.WithMD {
+		pool := &[]string{}
+		GenMD := func(t *rapid.T, n int) []KV { return GenMDPool(t, pool, n) }
 		cv.MD = GenMD(t, 6)
 		// header ops before the first send; optional explicit SendHeader; optional late SetHeader (must fail)
 		firstSend := len(hops)
@@ -375,6 +395,8 @@ func GenUnaryConv(t *rapid.T, o GenOpts) Conv {
 	cv.Reply = GenPayload(o.MaxPayload).Draw(t, "reply")
 	cv.UErr = GenErrSpec(t, o.OKBias)
 	if o.WithMD {
+		pool := &[]string{}
+		GenMD := func(t *rapid.T, n int) []KV { return GenMDPool(t, pool, n) }
 		cv.MD = GenMD(t, 6)
 		n := rapid.IntRange(0, 3).Draw(t, "nuops")
 		for i := 0; i < n; i++ {
